@@ -83,6 +83,14 @@ def parseIdx : Sx → Option (MArr Int)
     some (mkArr shape vals.toArray mask)
   | _ => none
 
+def parseBidx : Sx → Option (MArr Bool)
+  | .list [sh, vs, m] => do
+    let shape ← sh.nats?
+    let vals ← vs.bools?
+    let mask ← parseMask m
+    some (mkArr shape vals.toArray mask)
+  | _ => none
+
 def parseAm : Sx → Option (Arr Bool)
   | .list [sh, bs] => do
     let shape ← sh.nats?
@@ -147,6 +155,7 @@ partial def parseExpr : Sx → Option Expr
   | .list [.atom "sort", ax, e] => do some (.sort (← ax.toNat?) (← parseExpr e))
   | .list [.atom "index", e, iv] => do some (.index (← parseExpr e) (← iv.toNat?))
   | .list [.atom "su", am, e] => do some (.shrinkUnshrink (← am.toNat?) (← parseExpr e))
+  | .list [.atom "indexB", e, bv] => do some (.indexB (← parseExpr e) (← bv.toNat?))
   | .list [.atom "powG", ik, ikm1, e] => do some (.powG (← ik.toNat?) (← ikm1.toNat?) (← parseExpr e))
   | .list [.atom "mw", .atom k, il, ir, rm, e] => do
     let irep ← match ir with
@@ -184,12 +193,12 @@ def boolSx (a : MArr Bool) : Sx :=
 
 def handle : List Sx → Sx
   | [tree, .list (.atom "objs" :: objs), .list (.atom "idxs" :: idxs), .list (.atom "ams" :: ams),
-     .list (.atom "tables" :: tbs), .list (.atom "tables2" :: tbs2), .list (.atom "consts" :: cs), cut] =>
+     .list (.atom "tables" :: tbs), .list (.atom "tables2" :: tbs2), .list (.atom "consts" :: cs), .list (.atom "bidxs" :: bis), cut] =>
     match objs.mapM parseObj, idxs.mapM parseIdx, ams.mapM parseAm, tbs.mapM parseTable, tbs2.mapM parseTable2,
-          floats? (.list cs), cut.toNat? with
-    | some objs, some idxs, some ams, some tb, some tb2, some consts, some cut =>
+          floats? (.list cs), bis.mapM parseBidx, cut.toNat? with
+    | some objs, some idxs, some ams, some tb, some tb2, some consts, some bidxs, some cut =>
       let P := prims tb tb2 (Float.ofBits cut.toUInt64)
-      let env : Env Float := ⟨objs, idxs, ams, consts.toList⟩
+      let env : Env Float := ⟨objs, idxs, ams, consts.toList, bidxs⟩
       match tree with
       | .list (.atom "prog" :: stmts) =>
         let parseStmt : Sx → Option Stmt := fun x => match x with
@@ -217,7 +226,7 @@ def handle : List Sx → Sx
           | .ok x => objSx x
           | .error e => errSx e
         | none => err "tree"
-    | _, _, _, _, _, _, _ => err "env"
+    | _, _, _, _, _, _, _, _ => err "env"
   | _ => err "c03-request"
 
 end Drv.C03
